@@ -713,6 +713,22 @@ func evalSrc(src string, leaf func(src string) (uint64, bool), depth int) (uint6
 			return 0, false
 		}
 		return l % r, true
+	case token.SHL:
+		if r >= 64 {
+			return 0, true
+		}
+		return (l << r) & mask, true
+	case token.SHR:
+		if r >= 64 {
+			return 0, true
+		}
+		return (l & mask) >> r, true
+	case token.AND:
+		return l & r, true
+	case token.OR:
+		return l | r, true
+	case token.XOR:
+		return l ^ r, true
 	}
 	return 0, false
 }
